@@ -23,6 +23,11 @@ CLAIMED = {
    note="Assumed: well-formedness of the decoded entry (16-byte ids, level >= 0, own metadata map) - establishing it is C12's obligation on proposers; proto.Unmarshal and uuid.FromBytes contracts; the snapshot half (restore(snapshot(s)) = s) is C08's subject and is not claimed here; the step from per-entry determinism to replica equality is the standard induction over the log (not machine-checked).",
    tech="contract-based deductive verification, ghost capture of the notified outcome, SMT",
    ref="DESIGN.md §4 C04"),
+ "C11": dict(
+   text="Proof of the sequential clauses (unbounded over inputs and paths): a single write rejects a dimension mismatch before anything is proposed or sent; an unreachable owner or a failed remote call yields an error; a successful write took exactly one route (one local proposal or one remote call); proposeAndWaitForCommit returns success only for a value received from this proposal's own notification channel and an error when none arrived; every apply function notifies exactly once with that operation's outcome (shared with C02/C04); every notification channel that a non-blocking Notify will feed is created with capacity >= 1 (the sufficient condition for delivery whatever the timing).",
+   note="Not explored: interleavings - delivery is proved via the capacity precondition rather than by enumerating schedules; uniqueness of notification ids (uuid.NewV4) assumed; partition.insert/update/remove and the raft proposal path are assumed contracts here; batch error maps at dataset level (partitionsBatchRequest fan-in) not yet under contract.",
+   tech="contract-based deductive verification with ghost counters for proposals/RPCs/notifications, SMT",
+   ref="DESIGN.md §4 C11"),
  "C16": dict(
    text="Proof (unbounded in N, R, P and in the shuffle): every partition gets exactly min(R,N) distinct member ids, and no placement shares storage with the shuffle buffer or another placement. rand.Shuffle is an assumed contract (calls swap(i,j), 0<=i,j<n, any number of times); the swap closure is verified in place against a caller-supplied invariant.",
    note="Assumed: rand.Shuffle contract; sequential semantics; independence is proved in the sufficient form 'results do not alias the buffer or each other'.",
